@@ -1,5 +1,5 @@
 import WR.Base.Sexp
-import WR.C05.Printer
+import WR.C05.Printable
 open WR WR.Sexp WR.C05
 
 /-
@@ -7,7 +7,7 @@ open WR WR.Sexp WR.C05
     (c05 (sels <sel> …) <node>)
   answer
     (ok (r <bits> (spec a b c) "pseudo-element") …)      one `r` per selector
-  (c05parse "text") → (ok (sels <sel> …) "printed") | (err) | (unsupported) | (fuel)   the parser model
+  (c05parse "text") → (ok (sels <sel> …) "printed" printable rt) | (err) | (unsupported) | (fuel)   the parser model
   (c05print (sels <sel> …)) → (ok "printed")                                          the printer model
   and the batched form (c05m (sels <sel> …) <node> …) → (ok (t (r …) …) …), one `t` per tree,
   where <bits> is one 0/1 character per node of the tree in document order: `selMatch sel loc`.
@@ -120,7 +120,14 @@ def handle (req : Sexp) : Sexp :=
         Sexp.list (.atom "t" :: sels.map (answer locs)))))
     | .list [.atom "c05parse", .str text] =>
       match Parse.parseGroupText text.toList with
-      | .ok g => some (.list [.atom "ok", .list (.atom "sels" :: putSels g), putStr (Print.printGroup g)])
+      | .ok g =>
+        -- `printable`: groupPrintable g; `rt`: the model parser reads the model printer's text back to g
+        let printed := Print.printGroup g
+        let rt := match Parse.parseGroupText printed with
+          | .ok g' => Sexp.render (.list (putSels g')) == Sexp.render (.list (putSels g))
+          | .error _ => false
+        some (.list [.atom "ok", .list (.atom "sels" :: putSels g), putStr printed,
+          ofBool (groupPrintable g), ofBool rt])
       | .error .malformed => some (.list [.atom "err"])
       | .error .unsupported => some (.list [.atom "unsupported"])
       | .error .fuel => some (.list [.atom "fuel"])
